@@ -26,6 +26,7 @@ TECHNIQUE = 'explicit-state exploration of all builder fill states x store opera
 ASSUMPTIONS = ['sizes between the listed size classes behave like their neighbours (all fill levels are complete)']
 NOT_ASSERTED = ['state of a builder after a refused composite store (the property does not require atomicity)',
                 'preload_* over-reads (the property speaks of consuming reads)']
+RULE += ' Sixth session: store_bits argument forms (text with separators, iterators, generators, tuples, map objects), store_bytes argument forms (bytearray, memoryview, wide-item buffers); every cell taken from the builder during a BFS history is re-inspected after every later step; no route yields a cell with more than 4 references (refs assigned / += on the builder, plain constructor, BoC descriptor 5..7); after every rightly refused store the builder still enforces its capacity.'
 
 
 def BOUNDS(tier):
